@@ -11,12 +11,36 @@ def claim(i, technique, text, note, ref):
 
 exec(open(os.path.join(VERIF, "tools", "claims.py")).read())
 
+import ast
+
+
+def module_texts(pid):
+    """RULE and ASSUMPTIONS as written in props/<id>.py (literal module-level assignments), without importing it."""
+    out = {"RULE": "", "ASSUMPTIONS": []}
+    try:
+        tree = ast.parse(open(os.path.join(VERIF, "props", pid.lower() + ".py")).read())
+    except OSError:
+        return out
+    for node in tree.body:
+        if isinstance(node, ast.Assign) and len(node.targets) == 1 and getattr(node.targets[0], "id", None) in out:
+            try:
+                out[node.targets[0].id] = ast.literal_eval(node.value)
+            except ValueError:
+                pass
+    return out
+
+
 PENDING_REASON = "check not built yet in this session (work in progress; see DESIGN.md section 4)"
 checks, na = [], []
 for l in open(os.path.join(VERIF, "properties.jsonl")):
     pid = json.loads(l)["id"]
     if pid in CLAIMED and os.path.exists(os.path.join(VERIF, "props", pid.lower() + ".py")):
         technique, text, note, ref = CLAIMED[pid]
+        mt = module_texts(pid)
+        if mt["RULE"]:
+            text = text + " | Generator, oracle and non-triviality rule as stated by the check itself (props/%s.py RULE, also in the evidence file): %s" % (pid.lower(), mt["RULE"])
+        if mt["ASSUMPTIONS"]:
+            note = note + " | ASSUMPTIONS of the check: " + "; ".join(mt["ASSUMPTIONS"])
         checks.append({
             "property_id": pid,
             "quick_cmd": "./check %s --tier quick" % pid,
